@@ -123,7 +123,19 @@ pub fn gen_case(seed: u64, idx: u64, pairs: usize) -> Case {
     }
     // a file need not end with a newline (its last line is a line all the same)
     let trailing_newline: Vec<bool> = (0..nfiles).map(|_| !rng.chance(1, 3)).collect();
-    let input = Input { mode, files, trailing_newline };
+    // a set input whose last line has no newline and ends in a carriage
+    // return: without a following LF the CR belongs to the key
+    if mode == Mode::Set && rng.chance(1, 12) {
+        if let Some(fi) = (0..nfiles).rev().find(|&i| !files[i].is_empty()) {
+            if !trailing_newline[fi] {
+                let last = files[fi].len() - 1;
+                files[fi][last].0.push('\r');
+            }
+        }
+    }
+    // an older, longer file may already sit at the output path
+    let stale_output = if rng.chance(1, 4) { 4096 + rng.usize_below(4096) } else { 0 };
+    let input = Input { mode, files, trailing_newline, stale_output };
     let total = input.rows() as u32;
     let mut runs = Vec::new();
     for _ in 0..pairs {
@@ -190,6 +202,12 @@ fn account(st: &mut WStats, idx: u64, case: &Case, run: &crate::world::CaseRun) 
     input_d.str(&case_to(&Case { input: case.input.clone(), runs: vec![] }).to_string());
     if case.input.trailing_newline.iter().any(|b| !*b) {
         bump(&mut st.counters, "input.file_without_trailing_newline", 1);
+    }
+    if case.input.stale_output > 0 {
+        bump(&mut st.counters, "input.stale_longer_file_at_output_path", 1);
+    }
+    if case.input.files.iter().any(|f| f.iter().any(|(k, _)| k.contains('\r'))) {
+        bump(&mut st.counters, "input.key_ending_in_CR_at_EOF", 1);
     }
     let input_digest = input_d.finish();
     for (i, inv) in run.invocations.iter().enumerate() {
@@ -415,6 +433,13 @@ fn minimise(case: &Case, oracle: &str, root: &Path) -> (Case, u64) {
                 cur = c;
             } else {
                 f += 1;
+            }
+        }
+        if cur.input.stale_output > 0 {
+            let mut c = cur.clone();
+            c.input.stale_output = 0;
+            if fails(&c) {
+                cur = c;
             }
         }
         // every file ends with a newline again, if the failure allows it
